@@ -134,10 +134,36 @@ func GetCurrentDBDirName(fs vfs.FS, dir string) (string, error) {
 
 // CreateNodeDataDir creates new SM data dir.
 func CreateNodeDataDir(fs vfs.FS, dir string) error {
+	// Remember which levels do not exist yet, their directory entries have to be made durable as well.
+	var created []string
+	for d := filepath.Clean(dir); ; d = filepath.Dir(d) {
+		if _, err := fs.Stat(d); err == nil {
+			break
+		}
+		created = append(created, d)
+		if filepath.Dir(d) == d {
+			break
+		}
+	}
 	if err := fs.MkdirAll(dir, 0o755); err != nil {
 		return err
 	}
-	return syncDir(fs, filepath.Dir(dir))
+	if err := syncDir(fs, filepath.Dir(dir)); err != nil {
+		return err
+	}
+	for _, d := range created {
+		parent := filepath.Dir(d)
+		if parent == d || parent == filepath.Dir(dir) {
+			continue
+		}
+		if _, err := fs.Stat(parent); err != nil {
+			continue
+		}
+		if err := syncDir(fs, parent); err != nil {
+			return err
+		}
+	}
+	return nil
 }
 
 // CleanupNodeDataDir cleans up old data dir (should be called after successful switch).
